@@ -55,6 +55,7 @@ type step struct {
 	keys   []int // one key: Lock/RLock; several: Locks/RLocks
 	holdOn string
 	signal string
+	buf    *[]int // the caller's own key buffer, refilled in place for every call that shares it
 }
 
 type world struct {
@@ -70,6 +71,10 @@ func (x *world) run(name string, s step) {
 	w := x.w
 	w.Touch()
 	x.active++
+	if s.buf != nil { // the thread reuses one slice for its multi-key calls
+		copy(*s.buf, s.keys)
+		s.keys = (*s.buf)[:len(s.keys)]
+	}
 	multi := len(s.keys) > 1
 	switch {
 	case multi && s.write:
@@ -188,6 +193,9 @@ func progs() []prog {
 		// long lists (13 and 21 keys, several per shard): library sorts change algorithm above 12 elements
 		{name: "multi/Locks[1..13]|Locks[1,4]", multi: true, threads: [][]step{{W(1, 2, 3, 4, 5, 6, 7, 8, 9, 10, 11, 12, 13)}, {W(1, 4)}}, pb: [2]int{1, 2}},
 		{name: "multi/Locks[1..21]|Locks[2,8,20]|RLocks[5,11]", multi: true, threads: [][]step{{W(1, 2, 3, 4, 5, 6, 7, 8, 9, 10, 11, 12, 13, 14, 15, 16, 17, 18, 19, 20, 21)}, {W(2, 8, 20)}, {R(5, 11)}}, pb: [2]int{1, 1}},
+		// one caller-owned buffer refilled in place between two multi-key calls of the same length (8 and 13 keys)
+		{name: "multi/Locks[buf=1..8];Locks[buf=11..18]|Lock(11)|Lock(3)", multi: true, threads: [][]step{{withBuf(W(seqKeys(8)...), bufA), withBuf(W(shift(seqKeys(8), 10)...), bufA)}, {W(11)}, {W(3)}}, pb: [2]int{1, 2}},
+		{name: "multi/RLocks[buf=1..13];Locks[buf=21..33]|Lock(25)", multi: true, threads: [][]step{{withBuf(R(seqKeys(13)...), bufB), withBuf(W(shift(seqKeys(13), 20)...), bufB)}, {W(25)}}, pb: [2]int{1, 2}},
 		// batches of 64 / 65 keys (every key the table tracks) released while another caller waits on one of them
 		{name: "multi/Locks[1..64]|Lock(5)|Lock(5)", multi: true, threads: [][]step{{W(seqKeys(64)...)}, {W(5)}, {W(5)}}, pb: [2]int{1, 1}},
 		{name: "multi/Locks[1..65]|RLock(7)|Lock(7)", multi: true, threads: [][]step{{W(seqKeys(65)...)}, {R(7)}, {W(7)}}, pb: [2]int{1, 1}},
@@ -228,6 +236,21 @@ func manyHolders(m mkLocker, n int, pb [2]int) *mc.Scenario {
 				w.Failf("every lock was released but the locker retains %d per-key entr(ies)", e)
 			}
 		}}
+}
+
+var (
+	bufA = func() *[]int { b := make([]int, 8); return &b }()
+	bufB = func() *[]int { b := make([]int, 13); return &b }()
+)
+
+func withBuf(s step, b *[]int) step { s.buf = b; return s }
+
+func shift(ks []int, d int) []int {
+	o := make([]int, len(ks))
+	for i, k := range ks {
+		o[i] = k + d
+	}
+	return o
 }
 
 func seqKeys(n int) []int {
